@@ -236,7 +236,7 @@ func (c *Ctx) LoadReplay(v interface{}) {
 // Fatalf reports a harness error (exit 2, never a verdict).
 func Fatalf(format string, a ...interface{}) {
 	fmt.Fprintf(os.Stderr, "HARNESS-ERROR: "+format+"\n", a...)
-	os.Exit(2)
+	os.Exit(3) // 2 is what the Go runtime uses for fatal errors and unrecovered panics
 }
 
 // Try runs f and returns the recovered panic (nil if none) rendered as a string.
